@@ -130,8 +130,9 @@ fn format_field(
     shape: Shape,
 ) -> (Field, Vec<Token>) {
     match ctx.should_format_node(field) {
-        FormatNode::Skip => return (field.to_owned(), Vec::new()),
-        FormatNode::NotInRange => unreachable!("called format_field on a field not in range"),
+        // A field outside of the formatting range is left as is, like an ignored one. This can only happen when
+        // the enclosing statement carries no position information (and was therefore assumed to be in range)
+        FormatNode::Skip | FormatNode::NotInRange => return (field.to_owned(), Vec::new()),
         _ => (),
     }
 
